@@ -28,7 +28,7 @@ ASSUMPTIONS = ["'conflict' = two link definitions producing the same (section, o
                "for everything loaded before it)"]
 CASE_TIMEOUT = 120
 WALL = {"quick": 900, "thorough": 7200}
-REQUIRED = {"relabel_runs": 500, "permute_runs": 200, "history_runs": 200, "repeat_runs": 200, "file_order_runs": 30,
+REQUIRED = {"history_same_paths_other_content": 50, "relabel_runs": 500, "permute_runs": 200, "history_runs": 200, "repeat_runs": 200, "file_order_runs": 30,
             "mixed_nrexcl_cases": 50, "fragment_cases": 20, "file_order_runs_unrestricted": 40, "termini_relabel_runs": 100, "termini_modified": 100}
 
 
@@ -332,6 +332,26 @@ def run_case(cid, rng, workdir):
             RG.to_json(other["graph"], os.path.join(sub, "case.json"))
             bump(res, "history_failing_calls")
         run(other, sub, "case.json", "o.itp")
+    if rng.random() < 0.35:
+        # an earlier call that read other definitions from the very same paths (the user edited the files in between)
+        other = paramcase.build(rng, profile="full", nmin=1, nmax=5, layouts=[case["layout"]])
+        if [n_ for n_, _ in other["files"]] == [n_ for n_, _ in case["files"]]:
+            sub = os.path.join(workdir, "hist_ref")
+            os.makedirs(sub, exist_ok=True)
+            paramcase.write_case(other, sub)
+            r_ref, p_ref = run(other, sub, "case.json", "o.itp")
+            paramcase.write_case(other, workdir, graph_name="hist_same_path.json")
+            r_same, p_same = run(other, workdir, "hist_same_path.json", "o_same_path.itp")
+            paramcase.write_case(case, workdir)
+            bump(res, "history_same_paths_other_content")
+            if r_ref["status"] != r_same["status"]:
+                violation(res, "history-changes-output:paths-read-before", "definitions written to paths that an earlier call "
+                          "in the process had read: %s, the same files elsewhere: %s" % (r_same["status"], r_ref["status"]), w())
+            elif r_ref["status"] == "ok":
+                d = first_diff(canon(p_ref), canon(p_same))
+                if d:
+                    violation(res, "history-changes-output:paths-read-before", "output for definitions written to paths that an "
+                              "earlier call in the process had read differs from the output for the same files elsewhere: %s" % d, w())
     r, p = run(case, workdir, "case.json", "t.itp")
     bump(res, "history_runs")
     if r["status"] != "ok":
